@@ -601,6 +601,24 @@ def _node_tags(text):
             keep.append(n)                                   # ids in `seen` are unique only while the nodes are alive
             if n is not None: walk(n)
     except Exception: return None
+    # ... and, independently of parser and composer, the tags written in the text: every TAG token of a document that loads belongs to one of its nodes
+    for L in (getattr(yaml, 'CSafeLoader', None), yaml.SafeLoader):
+        if L is None: continue
+        try:
+            handles = {'!': '!', '!!': 'tag:yaml.org,2002:'}; in_content = False
+            for tok in yaml.scan(text, Loader=L):
+                if isinstance(tok, (yaml.DirectiveToken, yaml.DocumentStartToken, yaml.DocumentEndToken)) and in_content:
+                    handles = {'!': '!', '!!': 'tag:yaml.org,2002:'}; in_content = False      # the directives of a document end with it
+                if isinstance(tok, yaml.DirectiveToken):
+                    if tok.name == 'TAG' and tok.value: handles[tok.value[0]] = tok.value[1]
+                elif isinstance(tok, yaml.DocumentStartToken): in_content = True
+                elif isinstance(tok, yaml.TagToken):
+                    h, sfx = tok.value
+                    if h is None:
+                        if sfx != '!': tags.add(sfx)
+                    elif h in handles: tags.add(handles[h] + sfx)
+            break
+        except Exception: continue
     return tags
 
 def c01(text, loader_name, warm=None):
